@@ -24,6 +24,9 @@
 //	share / to-share / eval-share / api-share   values in which one array / map object is reachable along several paths
 //	          (`[row, row]`, `{x: cfg, y: cfg}`, []tengo.Object{o, o}), read back through every route; expected by a heap
 //	          interpreter written in the harness (share.go).
+//	api-heap  histories over scripts that alias globals and update objects in place, any number of Compile per Script (the
+//	          C15-1 shape included), Clone-then-update; correspondence `apiheap` (HostHeap.hrunOps, the heap model) on every
+//	          observation, and `apiheap-spec` (HostHeap.srunOps) whenever HostHeap.safeOpsG holds (apiheap.go).
 package main
 
 import (
@@ -691,6 +694,7 @@ func main() {
 	for i, n := 0, f.Scale(300, 10000); i < n; i++ {
 		apiShareCase(rng.U64())
 	}
+	apiHeapStream(rng, f.Scale(1500, 40000)) // the heap model (HostHeap.lean, driver line apiheap) vs the real API (apiheap.go)
 	maxLen := f.Scale(3, 4)
 	total := 0
 	for _, si := range exhScripts {
@@ -794,6 +798,12 @@ func replay(path string) {
 			continue
 		}
 		switch {
+		case strings.HasPrefix(in.Stream, "api-heap"):
+			if in.Exh != "" {
+				heapCorpus()
+			} else {
+				apiHeapCase(in.CaseSeed)
+			}
 		case in.Exh != "":
 			var si, l int
 			if _, err := fmt.Sscanf(in.Exh, "script=%d len=%d", &si, &l); err == nil {
